@@ -31,7 +31,7 @@ inductive JList
   | cons (j : J) (r : JList)
 inductive JMembers
   | nil
-  | cons (name : String) (j : J) (r : JMembers)
+  | cons (name : Str) (j : J) (r : JMembers)
 end
 
 def JList.ofList : List J → JList
@@ -40,7 +40,10 @@ def JList.ofList : List J → JList
 def JList.toList : JList → List J
   | .nil => []
   | .cons j r => j :: JList.toList r
-def JMembers.get? : JMembers → String → Option J
+/-- member names are byte strings (language tags are arbitrary bytes); a term of a table is its UTF-8 -/
+def nm (s : String) : Str := s.toUTF8.toList
+
+def JMembers.get? : JMembers → Str → Option J
   | .nil, _ => none
   | .cons n j r, k => if n = k then some j else JMembers.get? r k
 def JMembers.isNil : JMembers → Bool
@@ -55,9 +58,9 @@ structure Env where
   /-- write row of a field of a struct (struct name, field name) -/
   wrow : String → String → Option WRow
   /-- read row that reads the member of that name -/
-  rrow : String → String → Option RRow
+  rrow : String → Str → Option RRow
   /-- read row of the text property whose `<term>Map` member this is -/
-  rrowMap : String → String → Option RRow
+  rrowMap : String → Str → Option RRow
   /-- the declared kind of a field (struct name, field name) -/
   fieldKind : String → String → String
   kindOfType : Str → Option Kind
@@ -83,11 +86,9 @@ def nlvMapMembers : List (Str × Str) → List Str → List (Str × Str)
     if t.isEmpty || v.isEmpty || seen.contains t then nlvMapMembers r seen
     else (t, v) :: nlvMapMembers r (t :: seen)
 
-def strOfBytes (s : Str) : String := String.ofList (s.map fun b => Char.ofNat b.toNat)   -- member names of a language map
-
 def mapOf : List (Str × Str) → JMembers
   | [] => .nil
-  | (t, v) :: r => .cons (strOfBytes t) (.str v) (mapOf r)
+  | (t, v) :: r => .cons t (.str v) (mapOf r)
 
 def writeNLV (n : List (Str × Str)) : Option (String × J) :=
   match n with
@@ -126,7 +127,7 @@ def writeFields (E : Env) (sn : String) : Fields → JMembers
       if guardPasses w.guard v then
         match writeVal E (E.fieldKind sn n) w.helper v with
         | none => writeFields E sn r
-        | some (sfx, j) => .cons (w.term ++ sfx) j (writeFields E sn r)
+        | some (sfx, j) => .cons (nm (w.term ++ sfx)) j (writeFields E sn r)
       else writeFields E sn r
 def writeVal (E : Env) (kind helper : String) : FVal → Option (String × J)
   | .item i => if helper == "JSONWriteItemProp" then (writeItem E i).map (fun j => ("", j)) else none
@@ -163,8 +164,14 @@ def langPairs : JMembers → List (Str × Str)
   | .nil => []
   | .cons n j r =>
     match j with
-    | .str v => (if n == "-" ∧ v.isEmpty then langPairs r else (n.toUTF8.toList, v) :: langPairs r)
-    | _ => (if n == "-" then langPairs r else (n.toUTF8.toList, []) :: langPairs r)
+    | .str v => (if n == dash ∧ v.isEmpty then langPairs r else (n, v) :: langPairs r)
+    | _ => (if n == dash then langPairs r else (n, []) :: langPairs r)
+
+/-- JSONGetType: the string under "type", if any -/
+def typOf (ms : JMembers) : Str :=
+  match JMembers.get? ms (nm "type") with
+  | some (.str t) => t
+  | _ => []
 
 mutual
 /-- JSONLoadItem on one JSON value (a list member, an embedded object, a string) -/
@@ -174,10 +181,7 @@ def loadItem (E : Env) : J → Item
   | .arr _ => .nil
   | .str s => if E.validIRI s then .iri s else .nil
   | .obj ms =>
-    let typ := match JMembers.get? ms "type" with
-      | some (.str t) => t
-      | _ => []
-    match E.kindOfType typ with
+    match E.kindOfType (typOf ms) with
     | none => .nil
     | some k =>
       match readFields E k.goName ms with
